@@ -158,3 +158,52 @@ package journal
 //@   loop 1 invariant len(d.Transactions) >= old(len(d.Transactions)) && (forall j int :: {d.Transactions[j]} 0 <= j && j < old(len(d.Transactions)) ==> d.Transactions[j] == old(d.Transactions[j]))
 //@   loop 1 invariant forall j int :: {d.Transactions[j]} old(len(d.Transactions)) <= j && j < len(d.Transactions) ==> okTx(d.Transactions[j])
 //@   loop 1 invariant forall j int :: {d.Transactions[j]} old(len(d.Transactions)) <= j && j < len(d.Transactions) ==> d.Transactions[j].Postings[1].Quantity == 0 && d.Transactions[j].Postings[0].Quantity == 0 && d.Transactions[j].Date == d.Date
+//
+// CloseAccounts: on a closing day every accumulated income/expense/equity position with a non-zero
+// quantity or value is transferred to Equity:Equity by one balanced transaction; postings on
+// asset/liability accounts and on Equity:Equity itself are not accumulated.
+//@ func CloseAccounts$2
+//@   requires p != nil && validAccount(p.Account) && p.Commodity != nil && keysOK(quantities) && values != nil && quantities != values
+//@   ensures keysOK(quantities)
+//@   modifies quantities[*], values[*]
+//@   ensures result == nil
+//@   ensures @skip: isAL(p.Account) || p.Account == equityAccount ==> dom(quantities) == old(dom(quantities)) && vals(quantities) == old(vals(quantities))
+//@        && dom(values) == old(dom(values)) && vals(values) == old(vals(values))
+//@   ensures @acc: !isAL(p.Account) && p.Account != equityAccount ==>
+//@        dom(quantities) == upd(old(dom(quantities)), amounts.Key{Account: p.Account, Commodity: p.Commodity}, true)
+//@        && vals(quantities) == upd(old(vals(quantities)), amounts.Key{Account: p.Account, Commodity: p.Commodity}, old(quantities[amounts.Key{Account: p.Account, Commodity: p.Commodity}]) + p.Quantity)
+//@        && dom(values) == upd(old(dom(values)), amounts.Key{Account: p.Account, Commodity: p.Commodity}, true)
+//@        && vals(values) == upd(old(vals(values)), amounts.Key{Account: p.Account, Commodity: p.Commodity}, old(values[amounts.Key{Account: p.Account, Commodity: p.Commodity}]) + p.Value)
+//
+//@ func CloseAccounts$1
+//@   requires d != nil && keysOK(quantities) && values != nil && closingDays != nil
+//@   modifies d.Transactions, d.Transactions[*]
+//@   ensures result == nil
+//@   ensures @notclosing: !(d in closingDays) ==> d.Transactions == old(d.Transactions)
+//@   ensures @kept: len(d.Transactions) >= old(len(d.Transactions)) && (forall j int :: {d.Transactions[j]} 0 <= j && j < old(len(d.Transactions)) ==> d.Transactions[j] == old(d.Transactions[j]))
+//@   ensures @closing: forall j int :: {d.Transactions[j]} old(len(d.Transactions)) <= j && j < len(d.Transactions) ==> okTx(d.Transactions[j]) && d.Transactions[j].Date == d.Date
+//@   loop 1 invariant d.Date == old(d.Date)
+//@   loop 1 invariant len(d.Transactions) >= old(len(d.Transactions)) && (forall j int :: {d.Transactions[j]} 0 <= j && j < old(len(d.Transactions)) ==> d.Transactions[j] == old(d.Transactions[j]))
+//@   loop 1 invariant forall j int :: {d.Transactions[j]} old(len(d.Transactions)) <= j && j < len(d.Transactions) ==> okTx(d.Transactions[j]) && d.Transactions[j].Date == d.Date
+//
+// Query.Into: each posting that passes the filter is inserted exactly once, under the selected key,
+// with its quantity - or with its value when a valuation commodity is set; other postings not at all.
+// (Where and Select are caller-supplied and treated as pure functions; Insert is recorded in the trace.)
+//@ def keyOf(t *transaction.Transaction, b *posting.Posting, v *commodity.Commodity) amounts.Key :=
+//@     amounts.Key{Date: t.Date, Account: b.Account, Other: b.Other, Commodity: b.Commodity, Valuation: v, Description: t.Description}
+//
+//@ func (Query).Into$1
+//@   requires t != nil && b != nil
+//@   pure Where, Select
+//@   callback Insert=0
+//@   ensures result == nil
+//@   ensures @one: query.Where(keyOf(t, b, query.Valuation)) ==> tlen() == old(tlen()) + 1
+//@        && targ("Insert", 0, old(tlen())) == query.Select(keyOf(t, b, query.Valuation))
+//@        && targ("Insert", 1, old(tlen())) == (query.Valuation != nil ? b.Value : b.Quantity)
+//@   ensures @none: !query.Where(keyOf(t, b, query.Valuation)) ==> tlen() == old(tlen())
+//
+// Sort: the transactions of a day are sorted in place (a permutation of the same slice).
+//@ func Sort$1
+//@   requires d != nil
+//@   modifies d.Transactions[*]
+//@   ensures result == nil && d.Transactions == old(d.Transactions)
